@@ -84,6 +84,28 @@ def runTree (t : Tree) : List Op → List String → List String
     let (t', r) := t.step o
     runTree t' os (render t' r :: acc)
 
+/-! ### `attach`: the tree after a PostStart handler spawned a child (ids: root 1, user guardian 3, G 10, P 11, K 12) -/
+
+def attachPid (id : Nat) : Pid := ⟨id, id, id⟩
+
+/-- tree ops in the order the fixed code performs them: every actor is attached before its PostStart is processed,
+    so `addNode(parent of P, P)` precedes `addNode(P, K)` -/
+def attachTree (underG : Bool) : Tree :=
+  let t := (Tree.empty.addRoot (attachPid 1)).1
+  let t := (t.addNode (attachPid 1) (attachPid 3)).1
+  let t := if underG then (t.addNode (attachPid 3) (attachPid 10)).1 else t
+  let t := (t.addNode (attachPid (if underG then 10 else 3)) (attachPid 11)).1
+  (t.addNode (attachPid 11) (attachPid 12)).1
+
+def b01 (b : Bool) : String := if b then "1" else "0"
+
+def attachOut (underG : Bool) : String :=
+  let t := attachTree underG
+  let reg := (aget 12 t.pids).isSome && (aget 12 t.names == some ⟨12, ((aget 12 t.pids).map (·.ref)).getD 0⟩)
+  let par := t.parent 12 == some (attachPid 11)
+  let chi := ((t.children 11).getD []).contains (attachPid 12)
+  s!"reg={b01 reg};par={b01 par};chi={b01 chi}"
+
 def model (line : String) : String :=
   match words line with
   | "tree" :: nm :: ops =>
@@ -103,9 +125,18 @@ def model (line : String) : String :=
   | ["guard", _] => "overtakes=true"
   -- controlled-schedule witnesses of the lookup/delete race: no small-step model, judged only
   | "resolve" :: _ => "*"
+  -- a PostStart handler spawns a child K while the spawn of its actor P is held in front of the attachment:
+  -- PostStart is processed only once P is attached, so the tree sees addNode(parent-of-P, P) before addNode(P, K)
+  -- (`attachTree`; Props/C09Attach: in that order K is registered under P, in the other order it is refused);
+  -- the stop order is the children-first order of `stop_holds`
+  | ["attach", "top", _] => attachOut false ++ "|krun=0;kps=1;order=K,P"
+  | ["attach", "child", _] => attachOut true ++ "|krun=0;kps=1;order=K,P,G"
   | _ => "bad-case"
 
 /-! ### judge: parse the implementation's dump back and run the Spec on it -/
+
+/-- body of an `attach` output without the diagnostic `;early=` field -/
+def attachBody (o : String) : String := ((o.splitOn ";early=").head?).getD ""
 
 def kv? (s : String) : Option (List (Nat × Nat)) :=
   if s = "-" then some [] else
@@ -248,6 +279,9 @@ def judge (line : String) : String :=
   | "guard" :: _ =>
     if (o.splitOn "panic").length > 1 then "bad guardian panics on a Terminated that overtakes its PostStart (the root guardian then stops the actor system)"
     else "ok"
+  | "attach" :: _ =>
+    if attachBody o == model c then "ok"
+    else "bad an actor spawned from its parent's PostStart handler is not attached to the actor tree, or not stopped with its parent, children first: " ++ o
   | _ => "bad-case"
 
 def run (args : List String) : IO UInt32 := runWith args model judge
